@@ -241,8 +241,17 @@ class _ShutilProxy:
         return self._copy(_shutil.copy2, src, dst, **kw)
 
     def move(self, src, dst, **kw):
+        """shutil.move for files: os.rename, and when that is refused a (non-atomic) copy + unlink."""
         hub = self._hub
-        return hub.emit("rename", hub.classify(dst), hub.classify(src), lambda: _shutil.move(src, dst, **kw))
+        if not hub.enabled:
+            return _shutil.move(src, dst, **kw)
+        try:
+            hub.emit("rename", hub.classify(dst), hub.classify(src), lambda: _os.rename(src, dst))
+            return dst
+        except OSError:
+            self._copy(_shutil.copy2, src, dst)
+            hub.emit("unlink", hub.classify(src), None, lambda: _os.unlink(src))
+            return dst
 
     def __getattr__(self, name):
         return getattr(_shutil, name)
